@@ -244,7 +244,7 @@ _also("C20", rule="responder-side pairs (received pull channel with a UseStore/M
 CHECKS["C01"]["cell_budget_s"] = {"thorough": 150}
 CHECKS["C10"]["packages"] = ["l2node", "l2transport", "schedh"]
 _also("C10", technique="deviation-bounded scheduler enumeration of restart pairs at lock granularity", rule="scheduler cells: a restart racing with every other operation of the initiator-side alphabet (incl. a second restart), <=1 (thorough 2) preemptions: at most one outgoing graphsync request of the channel is live afterwards.")
-CHECKS["C05"]["packages"] = ["l2node", "schedh"]
+CHECKS["C05"]["packages"] = ["l2node", "schedh", "l2transport"]
 CHECKS["C04"]["packages"] = ["l2node", "schedh"]
 _also("C05", technique="deviation-bounded scheduler enumeration (restart request vs channel ending) at lock + validator-call granularity", rule="scheduler cells: a restart request for a live received channel racing with the peer's cancel, a local close or a rejecting validation update (the application's validator is a scheduling point), <=1 (thorough 2) preemptions: if the channel ends terminal the transport channel is not re-opened after its close and the connection is not left protected.")
 _also("C04", rule="the restart-request-vs-ending scheduler cells of C05 also decide C04's 'a rejected channel stays failed with its transport closed'.")
@@ -254,3 +254,4 @@ CHECKS["C14"]["packages"] = ["l2monitor", "schedh", "l2node"]
 _also("C14", rule="manager level (monitoring on, accept timeout on the virtual clock): the responder's acceptance handled while the opening call is still handing the request to the network / transport, right after it returned, or never: an accepted channel is never closed by the accept timeout, an unaccepted one is closed once.")
 CHECKS["C01"]["packages"] = ["l3e2e", "l2node"]
 _also("C01", rule="manager level: the responder's completion with the Complete message held in the network send while the application issues each accepting validation update: an un-paused Complete is only announced by a responder that then settles in Completed.")
+_also("C05", rule="transport level: the routing BFS over the real graphsync transport also decides C05 - a data-transfer message of the wrong kind for its sender's role, from a peer that is not the channel's other party or naming another transfer, in either of the two extensions a graphsync response / request update can carry, reaches no events handler and terminates the graphsync request.")
